@@ -4,6 +4,7 @@ use serde::{Deserialize, Serialize};
 use slab::Slab;
 
 use super::{BridgeError, Request};
+use crate::core::ResolveError;
 use crate::bridge::request_serde::ResolveSerialized;
 use crate::Effect;
 
@@ -58,8 +59,8 @@ impl ResolveRegistry {
         let entry = registry_lock.get_mut(id.0 as usize);
 
         let Some(entry) = entry else {
-            // FIXME return an Err instead of panicking here.
-            panic!("Request with {id:?} not found.");
+            // the id is unknown, or its request has already been resolved and forgotten
+            return Err(BridgeError::ProcessResponse(ResolveError::Never));
         };
 
         let resolved = entry.resolve(body);
